@@ -31,7 +31,7 @@ func vTakerSwap(swapIn, liquid bool, version uint8) *SwapData {
 		StartingBlockHeight:    zzverif.U32("anchor"),
 		StartingBlockHeightSet: zzverif.Bool("anchor_set"),
 		ClaimPreimage:          zzverif.Str("claimpreimage"),
-		ClaimPaymentHash:       zzverif.Str("claimpaymenthash"),
+		ClaimPaymentHash:       zzverif.HexStr("claimpaymenthash", 32),
 		BlindingKeyHex:         zzverif.HexStr("blindingkeyhex", 32),
 		OpeningTxBroadcasted: &OpeningTxBroadcastedMessage{SwapId: id, Payreq: zzverif.Str("otb.payreq"), TxId: zzverif.Str("otb.txid"),
 			ScriptOut: zzverif.U32("otb.vout"), BlindingKey: zzverif.HexStr("otb.blindingkey", 32)},
@@ -39,13 +39,13 @@ func vTakerSwap(swapIn, liquid bool, version uint8) *SwapData {
 	if swapIn {
 		s.Role = SWAPROLE_RECEIVER
 		s.SwapInRequest = &SwapInRequestMessage{ProtocolVersion: version, SwapId: id, Asset: asset, Network: network,
-			Scid: zzverif.Str("scid"), Amount: zzverif.U64("amount"), Pubkey: zzverif.Str("maker.pubkey"), PremiumLimit: zzverif.I64("premiumlimit")}
-		s.SwapInAgreement = &SwapInAgreementMessage{ProtocolVersion: version, SwapId: id, Pubkey: zzverif.Str("taker.pubkey"), Premium: zzverif.I64("premium")}
+			Scid: zzverif.Str("scid"), Amount: zzverif.U64("amount"), Pubkey: zzverif.HexStr("maker.pubkey", 33), PremiumLimit: zzverif.I64("premiumlimit")}
+		s.SwapInAgreement = &SwapInAgreementMessage{ProtocolVersion: version, SwapId: id, Pubkey: zzverif.HexStr("taker.pubkey", 33), Premium: zzverif.I64("premium")}
 	} else {
 		s.Role = SWAPROLE_SENDER
 		s.SwapOutRequest = &SwapOutRequestMessage{ProtocolVersion: version, SwapId: id, Asset: asset, Network: network,
-			Scid: zzverif.Str("scid"), Amount: zzverif.U64("amount"), Pubkey: zzverif.Str("taker.pubkey"), PremiumLimit: zzverif.I64("premiumlimit")}
-		s.SwapOutAgreement = &SwapOutAgreementMessage{ProtocolVersion: version, SwapId: id, Pubkey: zzverif.Str("maker.pubkey"),
+			Scid: zzverif.Str("scid"), Amount: zzverif.U64("amount"), Pubkey: zzverif.HexStr("taker.pubkey", 33), PremiumLimit: zzverif.I64("premiumlimit")}
+		s.SwapOutAgreement = &SwapOutAgreementMessage{ProtocolVersion: version, SwapId: id, Pubkey: zzverif.HexStr("maker.pubkey", 33),
 			Payreq: zzverif.Str("feeinvoice"), Premium: zzverif.I64("premium")}
 	}
 	return s
@@ -66,13 +66,13 @@ func vMakerSwap(swapIn, liquid bool, version uint8, broadcasted bool) *SwapData 
 	if swapIn {
 		s.Role = SWAPROLE_SENDER
 		s.SwapInRequest = &SwapInRequestMessage{ProtocolVersion: version, SwapId: id, Asset: asset, Network: network,
-			Scid: zzverif.Str("scid"), Amount: zzverif.U64("amount"), Pubkey: zzverif.Str("maker.pubkey"), PremiumLimit: zzverif.I64("premiumlimit")}
-		s.SwapInAgreement = &SwapInAgreementMessage{ProtocolVersion: version, SwapId: id, Pubkey: zzverif.Str("taker.pubkey"), Premium: zzverif.I64("premium")}
+			Scid: zzverif.Str("scid"), Amount: zzverif.U64("amount"), Pubkey: zzverif.HexStr("maker.pubkey", 33), PremiumLimit: zzverif.I64("premiumlimit")}
+		s.SwapInAgreement = &SwapInAgreementMessage{ProtocolVersion: version, SwapId: id, Pubkey: zzverif.HexStr("taker.pubkey", 33), Premium: zzverif.I64("premium")}
 	} else {
 		s.Role = SWAPROLE_RECEIVER
 		s.SwapOutRequest = &SwapOutRequestMessage{ProtocolVersion: version, SwapId: id, Asset: asset, Network: network,
-			Scid: zzverif.Str("scid"), Amount: zzverif.U64("amount"), Pubkey: zzverif.Str("taker.pubkey"), PremiumLimit: zzverif.I64("premiumlimit")}
-		s.SwapOutAgreement = &SwapOutAgreementMessage{ProtocolVersion: version, SwapId: id, Pubkey: zzverif.Str("maker.pubkey"),
+			Scid: zzverif.Str("scid"), Amount: zzverif.U64("amount"), Pubkey: zzverif.HexStr("taker.pubkey", 33), PremiumLimit: zzverif.I64("premiumlimit")}
+		s.SwapOutAgreement = &SwapOutAgreementMessage{ProtocolVersion: version, SwapId: id, Pubkey: zzverif.HexStr("maker.pubkey", 33),
 			Payreq: zzverif.Str("feeinvoice"), Premium: zzverif.I64("premium")}
 	}
 	if broadcasted {
